@@ -807,6 +807,140 @@ pub proof fn lemma_table_is<'a>(rules: Seq<Rule>, m: &Machine, terms: Seq<Dollar
 }
 //@]
 
+//@[ C14 C17 layer T, step lemmas: writing the listed entries one by one fills the table as the maps say
+pub type ActList<'a> = Seq<((StateIndex, Quasiterminal<'a>), (&'a StateItem, Action))>;
+pub type GotoList<'a> = Seq<((StateIndex, &'a str), Goto)>;
+/// every listed key addresses a cell of the table, and no key is listed twice
+pub open spec fn act_keys_ok<'a>(t: &Table, l: ActList<'a>, n: int) -> bool {
+    &&& forall|j: int| 0 <= j < l.len() ==> (#[trigger] l[j]).0.0.0 < n && qcol(t.terminals@, l[j].0.1) is Some
+    &&& forall|i: int, j: int| 0 <= i < j < l.len() ==> (#[trigger] l[i]).0 != (#[trigger] l[j]).0
+}
+pub open spec fn goto_keys_ok<'a>(t: &Table, l: GotoList<'a>, n: int) -> bool {
+    &&& forall|j: int| 0 <= j < l.len() ==> (#[trigger] l[j]).0.0.0 < n && nt_index(names_view(t.nonterminals@), l[j].0.1@, 0) is Some
+    &&& forall|i: int, j: int| 0 <= i < j < l.len() ==> (#[trigger] l[i]).0 != (#[trigger] l[j]).0
+}
+/// the first idx listed entries are in their cells; every other addressable cell still holds the error action
+pub open spec fn acts_filled<'a>(t: &Table, l: ActList<'a>, idx: int, n: int) -> bool {
+    &&& forall|j: int| 0 <= j < idx ==> t.actions@[t.action_pos((#[trigger] l[j]).0.0, l[j].0.1)] == l[j].1.1
+    &&& forall|s: StateIndex, q: Quasiterminal<'a>| s.0 < n && qcol(t.terminals@, q) is Some && act_unlisted(l, idx, (s, q))
+            ==> #[trigger] t.actions@[t.action_pos(s, q)] == Action::Err
+}
+pub open spec fn gotos_filled<'a>(t: &Table, l: GotoList<'a>, idx: int, n: int) -> bool {
+    &&& forall|j: int| 0 <= j < idx ==> t.gotos@[t.goto_pos((#[trigger] l[j]).0.0, l[j].0.1@)] == l[j].1
+    &&& forall|s: StateIndex, nm: Seq<char>| s.0 < n && nt_index(names_view(t.nonterminals@), nm, 0) is Some && goto_unlisted(l, idx, s, nm)
+            ==> #[trigger] t.gotos@[t.goto_pos(s, nm)] == Goto::Err
+}
+pub proof fn lemma_fill_action<'a>(t0: &Table, t1: &Table, l: ActList<'a>, idx: int, n: int)
+    requires t0.wf(), t0.nstates() == n, 0 <= idx < l.len(), act_keys_ok(t0, l, n), acts_filled(t0, l, idx, n),
+        t1.terminals == t0.terminals, t1.actions@ == t0.actions@.update(t0.action_pos(l[idx].0.0, l[idx].0.1), l[idx].1.1),
+    ensures acts_filled(t1, l, idx + 1, n)
+{
+    let (ks, kq) = (l[idx].0.0, l[idx].0.1);
+    let p = t0.action_pos(ks, kq);
+    lemma_action_pos_in_range(t0, ks, kq);
+    assert forall|s: StateIndex, q: Quasiterminal<'a>| #[trigger] t1.action_pos(s, q) == t0.action_pos(s, q) by {}
+    assert forall|j: int| 0 <= j < idx + 1 implies t1.actions@[t1.action_pos((#[trigger] l[j]).0.0, l[j].0.1)] == l[j].1.1 by {
+        lemma_action_pos_in_range(t0, l[j].0.0, l[j].0.1);
+        if j < idx && t0.action_pos(l[j].0.0, l[j].0.1) == p { lemma_action_pos_injective(t0, l[j].0.0, l[j].0.1, ks, kq); }
+    }
+    assert forall|s: StateIndex, q: Quasiterminal<'a>| s.0 < n && qcol(t1.terminals@, q) is Some && act_unlisted(l, idx + 1, (s, q))
+        implies #[trigger] t1.actions@[t1.action_pos(s, q)] == Action::Err by {
+        lemma_action_pos_in_range(t0, s, q);
+        assert(l[idx].0 != (s, q));
+        if t0.action_pos(s, q) == p { lemma_action_pos_injective(t0, s, q, ks, kq); }
+        assert(act_unlisted(l, idx, (s, q)));
+    }
+}
+pub proof fn lemma_fill_goto<'a>(t0: &Table, t1: &Table, l: GotoList<'a>, idx: int, n: int)
+    requires t0.wf(), t0.nstates() == n, 0 <= idx < l.len(), goto_keys_ok(t0, l, n), gotos_filled(t0, l, idx, n),
+        t1.nonterminals == t0.nonterminals, t1.gotos@ == t0.gotos@.update(t0.goto_pos(l[idx].0.0, l[idx].0.1@), l[idx].1),
+    ensures gotos_filled(t1, l, idx + 1, n)
+{
+    let (ks, kn) = (l[idx].0.0, l[idx].0.1@);
+    let p = t0.goto_pos(ks, kn);
+    lemma_goto_pos_in_range(t0, ks, kn);
+    assert forall|s: StateIndex, nm: Seq<char>| #[trigger] t1.goto_pos(s, nm) == t0.goto_pos(s, nm) by {}
+    assert forall|j: int| 0 <= j < idx + 1 implies t1.gotos@[t1.goto_pos((#[trigger] l[j]).0.0, l[j].0.1@)] == l[j].1 by {
+        lemma_goto_pos_in_range(t0, l[j].0.0, l[j].0.1@);
+        if j < idx && t0.goto_pos(l[j].0.0, l[j].0.1@) == p {
+            lemma_goto_pos_injective(t0, l[j].0.0, l[j].0.1@, ks, kn);
+            axiom_str_ext(l[j].0.1, l[idx].0.1);
+        }
+    }
+    assert forall|s: StateIndex, nm: Seq<char>| s.0 < n && nt_index(names_view(t1.nonterminals@), nm, 0) is Some && goto_unlisted(l, idx + 1, s, nm)
+        implies #[trigger] t1.gotos@[t1.goto_pos(s, nm)] == Goto::Err by {
+        lemma_goto_pos_in_range(t0, s, nm);
+        assert(!(l[idx].0.0 == s && l[idx].0.1@ == nm));
+        if t0.goto_pos(s, nm) == p { lemma_goto_pos_injective(t0, s, nm, ks, kn); }
+        assert(goto_unlisted(l, idx, s, nm));
+    }
+}
+/// once everything is listed the cells are exactly the map
+pub proof fn lemma_acts_done_if<'a>(t: &Table, acts: ActMap<'a>, l: ActList<'a>, idx: int, n: int)
+    requires is_map_listing(acts, l), acts_filled(t, l, idx, n)
+    ensures idx == l.len() ==> actions_are(t, acts, n)
+{ if idx == l.len() { lemma_acts_done(t, acts, l, n); } }
+pub proof fn lemma_gotos_done_if<'a>(t: &Table, gts: GotoMap<'a>, l: GotoList<'a>, idx: int, n: int)
+    requires is_map_listing(gts, l), gotos_filled(t, l, idx, n)
+    ensures idx == l.len() ==> gotos_are(t, gts, n)
+{ if idx == l.len() { lemma_gotos_done(t, gts, l, n); } }
+pub proof fn lemma_acts_done<'a>(t: &Table, acts: ActMap<'a>, l: ActList<'a>, n: int)
+    requires is_map_listing(acts, l), acts_filled(t, l, l.len() as int, n)
+    ensures actions_are(t, acts, n)
+{
+    assert forall|key: (StateIndex, Quasiterminal<'a>)| #[trigger] acts.contains_key(key) implies t.actions@[t.action_pos(key.0, key.1)] == acts[key].1 by {
+        let i = choose|i: int| 0 <= i < l.len() && (#[trigger] l[i]).0 == key;
+        assert(acts[l[i].0] == l[i].1);
+    }
+    assert forall|s: StateIndex, q: Quasiterminal<'a>| s.0 < n && qcol(t.terminals@, q) is Some && !acts.contains_key((s, q))
+        implies #[trigger] t.actions@[t.action_pos(s, q)] == Action::Err by {
+        assert forall|j: int| 0 <= j < l.len() implies (#[trigger] l[j]).0 != (s, q) by { assert(acts.contains_key(l[j].0)); }
+        assert(act_unlisted(l, l.len() as int, (s, q)));
+    }
+}
+pub proof fn lemma_gotos_done<'a>(t: &Table, gts: GotoMap<'a>, l: GotoList<'a>, n: int)
+    requires is_map_listing(gts, l), gotos_filled(t, l, l.len() as int, n)
+    ensures gotos_are(t, gts, n)
+{
+    assert forall|key: (StateIndex, &'a str)| #[trigger] gts.contains_key(key) implies t.gotos@[t.goto_pos(key.0, key.1@)] == gts[key] by {
+        let i = choose|i: int| 0 <= i < l.len() && (#[trigger] l[i]).0 == key;
+        assert(gts[l[i].0] == l[i].1);
+    }
+    assert forall|s: StateIndex, nm: Seq<char>| s.0 < n && nt_index(names_view(t.nonterminals@), nm, 0) is Some
+        && (forall|key: (StateIndex, &'a str)| gts.contains_key(key) ==> !(key.0 == s && key.1@ == nm))
+        implies #[trigger] t.gotos@[t.goto_pos(s, nm)] == Goto::Err by {
+        assert forall|j: int| 0 <= j < l.len() implies !((#[trigger] l[j]).0.0 == s && l[j].0.1@ == nm) by { assert(gts.contains_key(l[j].0)); }
+        assert(goto_unlisted(l, l.len() as int, s, nm));
+    }
+}
+/// the keys of the two maps address cells of the table (from the invariants of the maps)
+pub proof fn lemma_act_keys_ok<'a>(rules: Seq<Rule>, m: &Machine, terms: Seq<DollarlessTerminalName>, nts: Seq<Seq<char>>, t: &Table, acts: ActMap<'a>, l: ActList<'a>)
+    requires machine_ok(rules, m, terms, nts), acts_inv(rules, m, acts, m.states.seq().len() as int, 0), is_map_listing(acts, l), t.terminals@ == terms,
+    ensures act_keys_ok(t, l, m.states.seq().len() as int)
+{
+    let n = m.states.seq().len() as int;
+    assert forall|j: int| 0 <= j < l.len() implies (#[trigger] l[j]).0.0.0 < n && qcol(t.terminals@, l[j].0.1) is Some by {
+        let key = l[j].0;
+        assert(acts.contains_key(key));
+        let k = choose|k: int| act_witness(rules, m, acts, key, k, n, 0);
+        assert(StateIndex(key.0.0 as int as usize) == key.0);
+        let it = items_of(m, key.0.0 as int)[k];
+    }
+}
+pub proof fn lemma_goto_keys_ok<'a>(rules: Seq<Rule>, m: &Machine, terms: Seq<DollarlessTerminalName>, nts: Seq<Seq<char>>, t: &Table, gts: GotoMap<'a>, l: GotoList<'a>)
+    requires machine_ok(rules, m, terms, nts), gotos_inv(m, gts, m.transitions.seq().len() as int), is_map_listing(gts, l), names_view(t.nonterminals@) == nts,
+    ensures goto_keys_ok(t, l, m.states.seq().len() as int)
+{
+    let n = m.states.seq().len() as int;
+    assert forall|j: int| 0 <= j < l.len() implies (#[trigger] l[j]).0.0.0 < n && nt_index(names_view(t.nonterminals@), l[j].0.1@, 0) is Some by {
+        let key = l[j].0;
+        assert(gts.contains_key(key));
+        let j2 = choose|j2: int| goto_witness(m, gts, key, j2, m.transitions.seq().len() as int);
+        let tr = m.transitions.seq()[j2];
+    }
+}
+//@]
+
 impl ImmutContext<'_> {
     fn build_as_is(&self, builder: TableBuilder) -> /*@[*/(r: /*@]*/Table/*@[*/)/*@]*/
         //@[ C07 C14 C17 build_as_is: cells are written by key, so the table is a function of the two maps: the (unspecified) listing order of the hash maps cannot influence it
@@ -824,27 +958,23 @@ impl ImmutContext<'_> {
         let ghost acts = builder.actions@;
         let ghost gts = builder.gotos@;
         let ghost n = self.machine.states.seq().len() as int;
-        //@]
-
-        //@[ proof
+        let ghost te = table;
         proof {
-            assert forall|s: StateIndex, q: Quasiterminal| s.0 < n && qcol(table.terminals@, q) is Some implies 0 <= #[trigger] table.action_pos(s, q) < table.actions@.len() by {
+            assert forall|s: StateIndex, q: Quasiterminal| s.0 < n && qcol(table.terminals@, q) is Some implies #[trigger] table.actions@[table.action_pos(s, q)] == Action::Err by {
                 lemma_action_pos_in_range(&table, s, q);
             }
         }
         //@]
+
         for ((state, quasiterminal), (_, action)) in /*@[*/__vx_it: /*@]*//*@{ T6_actions*//*@- builder.actions *//*@|*/__vx_hash_listing(builder.actions)/*@}*/
-            //@[ C07 C14 loop invariant (actions): the table keeps its shape; every listed key addresses an existing cell
+            //@[ C07 C14 loop invariant (actions): the entries listed so far are in their cells, all other cells hold the error action
             invariant
                 self.ok(), acts_inv(self.rules@, self.machine, acts, n, 0), n == self.machine.states.seq().len(),
                 is_map_listing(acts, __vx_it.seq()),
                 table.wf(), table.nstates() == n, table.start == self.machine.start,
                 table.terminals@ == file_terms(self.file), names_view(table.nonterminals@) == file_nts(self.file),
-                forall|j: int| 0 <= j < __vx_it.index@ ==> table.actions@[table.action_pos((#[trigger] __vx_it.seq()[j]).0.0, __vx_it.seq()[j].0.1)] == __vx_it.seq()[j].1.1,
-                forall|s: StateIndex, q: Quasiterminal| s.0 < n && qcol(table.terminals@, q) is Some && act_unlisted(__vx_it.seq(), __vx_it.index@, (s, q))
-                    ==> #[trigger] table.actions@[table.action_pos(s, q)] == Action::Err,
-                forall|i: int| 0 <= i < table.gotos@.len() ==> #[trigger] table.gotos@[i] == Goto::Err,
-                forall|s: StateIndex, q: Quasiterminal| s.0 < n && qcol(table.terminals@, q) is Some ==> 0 <= #[trigger] table.action_pos(s, q) < table.actions@.len(),
+                table.gotos == te.gotos, table.nonterminals == te.nonterminals,
+                acts_filled(&table, __vx_it.seq(), __vx_it.index@, n),
             ensures
                 actions_are(&table, acts, n),
             //@]
@@ -854,41 +984,28 @@ impl ImmutContext<'_> {
             let ghost lst = __vx_it.seq();
             let ghost t0 = table;
             proof {
-                let key = (state, quasiterminal);
-                assert(lst[idx].0 == key);
-                assert(acts.contains_key(key));
-                let k = choose|k: int| act_witness(self.rules@, self.machine, acts, key, k, n, 0);
-                assert(StateIndex(state.0 as int as usize) == state);
-                let it = items_of(self.machine, state.0 as int)[k];
-                // keys listed earlier and unlisted keys address other cells
-                assert forall|j: int| 0 <= j < idx implies t0.action_pos((#[trigger] lst[j]).0.0, lst[j].0.1) != t0.action_pos(state, quasiterminal) by {
-                    let kj = lst[j].0;
-                    assert(acts.contains_key(kj));
-                    let k2 = choose|k2: int| act_witness(self.rules@, self.machine, acts, kj, k2, n, 0);
-                    assert(StateIndex(kj.0.0 as int as usize) == kj.0);
-                    let it2 = items_of(self.machine, kj.0.0 as int)[k2];
-                    if t0.action_pos(kj.0, kj.1) == t0.action_pos(state, quasiterminal) { lemma_action_pos_injective(&t0, kj.0, kj.1, state, quasiterminal); }
-                }
-                assert forall|s: StateIndex, q: Quasiterminal| s.0 < n && qcol(t0.terminals@, q) is Some && act_unlisted(lst, idx + 1, (s, q))
-                    implies t0.action_pos(s, q) != t0.action_pos(state, quasiterminal) && act_unlisted(lst, idx, (s, q)) by {
-                    if t0.action_pos(s, q) == t0.action_pos(state, quasiterminal) { lemma_action_pos_injective(&t0, s, q, state, quasiterminal); assert(lst[idx].0 == (s, q)); }
-                }
+                assert(lst[idx].0 == (state, quasiterminal) && lst[idx].1.1 == action);
+                lemma_act_keys_ok(self.rules@, self.machine, file_terms(self.file), file_nts(self.file), &t0, acts, lst);
             }
             //@]
             table.set_action(state, quasiterminal, action);
             //@[ proof
-            proof { assert forall|s: StateIndex, q: Quasiterminal| #[trigger] table.action_pos(s, q) == t0.action_pos(s, q) by {} }
+            proof {
+                lemma_fill_action(&t0, &table, lst, idx, n);
+                lemma_acts_done_if(&table, acts, lst, idx + 1, n);
+            }
             //@]
         }
-
         //@[ proof
         let ghost t1 = table;
         proof {
-            assert forall|s: StateIndex, nm: Seq<char>| s.0 < n && nt_index(names_view(table.nonterminals@), nm, 0) is Some implies 0 <= #[trigger] table.goto_pos(s, nm) < table.gotos@.len() by {
+            assert forall|s: StateIndex, nm: Seq<char>| s.0 < n && nt_index(names_view(table.nonterminals@), nm, 0) is Some implies #[trigger] table.gotos@[table.goto_pos(s, nm)] == Goto::Err by {
                 lemma_goto_pos_in_range(&table, s, nm);
+                assert(table.gotos@ == te.gotos@);
             }
         }
         //@]
+
         for ((state, nonterminal), goto) in /*@[*/__vx_it2: /*@]*//*@{ T6_gotos*//*@- builder.gotos *//*@|*/__vx_hash_listing(builder.gotos)/*@}*/
             //@[ C07 C14 loop invariant (gotos)
             invariant
@@ -896,11 +1013,8 @@ impl ImmutContext<'_> {
                 is_map_listing(gts, __vx_it2.seq()),
                 table.wf(), table.nstates() == n, table.start == self.machine.start,
                 table.terminals@ == file_terms(self.file), names_view(table.nonterminals@) == file_nts(self.file),
-                table.actions == t1.actions, table.terminals == t1.terminals, table.nonterminals == t1.nonterminals,
-                forall|j: int| 0 <= j < __vx_it2.index@ ==> table.gotos@[table.goto_pos((#[trigger] __vx_it2.seq()[j]).0.0, __vx_it2.seq()[j].0.1@)] == __vx_it2.seq()[j].1,
-                forall|s: StateIndex, nm: Seq<char>| s.0 < n && nt_index(names_view(table.nonterminals@), nm, 0) is Some && goto_unlisted(__vx_it2.seq(), __vx_it2.index@, s, nm)
-                    ==> #[trigger] table.gotos@[table.goto_pos(s, nm)] == Goto::Err,
-                forall|s: StateIndex, nm: Seq<char>| s.0 < n && nt_index(names_view(table.nonterminals@), nm, 0) is Some ==> 0 <= #[trigger] table.goto_pos(s, nm) < table.gotos@.len(),
+                table.actions == t1.actions, table.terminals == t1.terminals,
+                gotos_filled(&table, __vx_it2.seq(), __vx_it2.index@, n),
             ensures
                 gotos_are(&table, gts, n), table.actions == t1.actions, table.terminals == t1.terminals,
             //@]
@@ -910,30 +1024,16 @@ impl ImmutContext<'_> {
             let ghost lst = __vx_it2.seq();
             let ghost t0 = table;
             proof {
-                let key = (state, nonterminal);
-                assert(lst[idx].0 == key);
-                assert(gts.contains_key(key));
-                let j = choose|j: int| goto_witness(self.machine, gts, key, j, self.machine.transitions.seq().len() as int);
-                let t = self.machine.transitions.seq()[j];
-                assert forall|j2: int| 0 <= j2 < idx implies t0.goto_pos((#[trigger] lst[j2]).0.0, lst[j2].0.1@) != t0.goto_pos(state, nonterminal@) by {
-                    let kj = lst[j2].0;
-                    assert(gts.contains_key(kj));
-                    let j3 = choose|j3: int| goto_witness(self.machine, gts, kj, j3, self.machine.transitions.seq().len() as int);
-                    let tr3 = self.machine.transitions.seq()[j3];
-                    if t0.goto_pos(kj.0, kj.1@) == t0.goto_pos(state, nonterminal@) {
-                        lemma_goto_pos_injective(&t0, kj.0, kj.1@, state, nonterminal@);
-                        axiom_str_ext(kj.1, nonterminal);
-                    }
-                }
-                assert forall|s: StateIndex, nm: Seq<char>| s.0 < n && nt_index(names_view(t0.nonterminals@), nm, 0) is Some && goto_unlisted(lst, idx + 1, s, nm)
-                    implies t0.goto_pos(s, nm) != t0.goto_pos(state, nonterminal@) && goto_unlisted(lst, idx, s, nm) by {
-                    if t0.goto_pos(s, nm) == t0.goto_pos(state, nonterminal@) { lemma_goto_pos_injective(&t0, s, nm, state, nonterminal@); assert(lst[idx].0.0 == s && lst[idx].0.1@ == nm); }
-                }
+                assert(lst[idx].0 == (state, nonterminal) && lst[idx].1 == goto);
+                lemma_goto_keys_ok(self.rules@, self.machine, file_terms(self.file), file_nts(self.file), &t0, gts, lst);
             }
             //@]
             table.set_goto(state, nonterminal, goto);
             //@[ proof
-            proof { assert forall|s: StateIndex, nm: Seq<char>| #[trigger] table.goto_pos(s, nm) == t0.goto_pos(s, nm) by {} }
+            proof {
+                lemma_fill_goto(&t0, &table, lst, idx, n);
+                lemma_gotos_done_if(&table, gts, lst, idx + 1, n);
+            }
             //@]
         }
         //@[ proof
